@@ -124,6 +124,18 @@ class GhostAssert(ast.stmt):
 
 class StmtMixin(object):
 
+    def materialize(self, st, v):
+        from .vals import RecProto
+        if isinstance(v, RecProto):
+            st = st.clone()
+            rid = self.new_id()
+            for k, pv in v.fields.items():
+                st.heap[(rid, k)] = pv
+            st.heap[(rid, '__closed__')] = True
+            st.heap[(rid, '__keys__')] = tuple(v.fields.keys())
+            return st, RefV(rid, 'rec')
+        return st, v
+
     def ex_GhostAssert(self, s, st):
         val, facts = self.contract_bool(s.text, st)
         self.add_oblig('ghost[%s]' % s.label, 'ghost', st, val, facts, line=s.lineno)
@@ -760,7 +772,8 @@ class StmtMixin(object):
                 if iter_ref is not None:
                     sb = sb.clone()
                     sb.heap[(iter_ref.id, 'pos')] = IntV(k + 1)
-                for s1, e in self.assign_g(s.target, elem(k), sb, s.lineno):
+                sb, ek = self.materialize(sb, elem(k))
+                for s1, e in self.assign_g(s.target, ek, sb, s.lineno):
                     if e is not None:
                         yield s1, ('raise', e)
                         continue
